@@ -584,7 +584,9 @@ def check_calls_with_inputs(ctx):
         for _ in range(rng.randint(2, 6)):
             kind = rng.choice(['run', 'call-ask', 'call-total', 'call-ask-kw'])
             given = [str(rng.randrange(1, 50)) for _ in range(rng.randint(0, 4))]
-            steps.append((kind, given, rng.randint(0, 3)))
+            # (one line of input may be given by itself, as text or as a number, instead of as a list)
+            form = rng.choice(['list', 'one-string', 'one-number']) if len(given) == 1 else 'list'
+            steps.append((kind, given, rng.randint(0, 3), form))
         case = {'src': src, 'scenario': 'calls-with-inputs', 'steps': steps}
         _calls_with_inputs_history(ctx, case)
 
@@ -596,7 +598,10 @@ def _calls_with_inputs_history(ctx, case):
     clear_report()
     contextualize_report(src)
     ref_ns = None
-    for idx, (kind, given, n) in enumerate(case['steps']):
+    for idx, step in enumerate(case['steps']):
+        kind, given, n = step[:3]
+        form = step[3] if len(step) > 3 else 'list'
+        handed = list(given) if form == 'list' else (given[0] if form == 'one-string' else int(given[0]))
         queue = list(given)
 
         def fake_input(prompt='', queue=queue):
@@ -609,7 +614,7 @@ def _calls_with_inputs_history(ctx, case):
                 with contextlib.redirect_stdout(io.StringIO()):
                     exec(compile(src, 'answer.py', 'exec'), ref_ns)
                 want = ref_ns['first']
-                sbx.run(inputs=list(given))
+                sbx.run(inputs=handed)
                 got = unwrap(sbx.get_sandbox().data.get('first'))
             else:
                 ref_ns['input'] = fake_input
@@ -617,16 +622,16 @@ def _calls_with_inputs_history(ctx, case):
                 with contextlib.redirect_stdout(io.StringIO()):
                     want = ref_ns[fname](n)
                 if kind == 'call-ask-kw':
-                    got = unwrap(sbx.call(fname, n=n, inputs=list(given)))
+                    got = unwrap(sbx.call(fname, n=n, inputs=handed))
                 else:
-                    got = unwrap(sbx.call(fname, n, inputs=list(given)))
+                    got = unwrap(sbx.call(fname, n, inputs=handed))
             e = sbx.get_exception()
         except BaseException as ex:
             ctx.violation('C06|call-with-inputs-raised|%s|%s' % (kind, type(ex).__name__), where, traceback.format_exc()[-400:])
             return
         ctx.count('executions_with_given_inputs')
         if e is not None or got != want:
-            ctx.violation('C06|result-differs-with-given-inputs|%s|%s' % (kind, 'after-unread-inputs' if idx else 'first'), where,
+            ctx.violation('C06|result-differs-with-given-inputs|%s|%s%s' % (kind, 'after-unread-inputs' if idx else 'first', '' if form == 'list' else '|given-as-' + form), where,
                           'with inputs %r CPython gives %r; the sandbox %r (exception %r)' % (given, want, got, e))
             return
     ctx.case('I:' + repr(case['steps']))
